@@ -17,6 +17,7 @@ type callTarget struct {
 	sig   *types.Signature
 	names []string // parameter names, receiver first
 	fn    *ssa.Function
+	caps  map[string]capturedVar
 }
 
 func (c *Ctx) calleeContract(g *FnGen, com *ssa.CallCommon) (*FuncContract, *callTarget) {
@@ -71,6 +72,9 @@ func (g *FnGen) execCall(s *State, ins ssa.Instruction, com *ssa.CallCommon, res
 	}
 	if mc, ok := com.Value.(*ssa.MakeClosure); ok && !com.IsInvoke() {
 		g.execClosureCall(s, mc, com, res)
+		return
+	}
+	if g.intrinsic(s, com, res) {
 		return
 	}
 	fc, ct := g.c.calleeContract(g, com)
@@ -153,6 +157,7 @@ func (g *FnGen) contractEnv(fc *FuncContract, ct *callTarget, cur, old *State, a
 		env.vars[n] = args[i]
 	}
 	env.calleeMode = true
+	env.capt = ct.caps
 	return env
 }
 
@@ -380,6 +385,10 @@ type primPath struct {
 
 func (g *FnGen) primPaths(t types.Type) []primPath {
 	var out []primPath
+	if mc, ok := t.(*mapCells); ok {
+		vs, ds := g.mapSorts(mc.m)
+		return []primPath{{[]int{0}, vs, nil}, {[]int{1}, ds, nil}}
+	}
 	var rec func(t types.Type, pre []int)
 	rec = func(t types.Type, pre []int) {
 		if si := g.c.reg.structOf(t); si != nil {
